@@ -40,7 +40,8 @@ META = {
                 'doit/control.py::TaskControl.process', 'doit/cmd_run.py::Run._execute',
                 'doit/cmd_base.py::DoitCmdBase.execute', 'doit/task.py::Task.init_options',
                 'doit/task.py::Task._expand_task_dep', 'doit/loader.py::_generate_task_from_yield'],
-    'technique': 'Lean 4 proofs about an executable model of selection (function = declarative relation, fuel '
+    'technique': 'Lean 4 proofs about an executable model of selection (function = declarative relation, the whole of '
+                 'fnmatch proved equal to an inductive matching relation, fuel '
                  'sufficiency, --single invariant, closure = least closed set, order clause by a phase invariant of the '
                  'serial dispatcher in the run model M1) + differential correspondence through '
                  'TaskControl.process and the run command + Lean monitor on observed runs',
